@@ -207,7 +207,7 @@ def run_setters(rng, obs):
         obs.skip('massless factor: centre of mass undefined'); return
     m = c[k]
     sup = [x for x, w in zip(pos[k], wts[k]) if w > 0]
-    t = rng.choice([0.0, 2.5, -4.0])
+    t = rng.choice([0.0, 2.5, -4.0, 2.5, 1e4, -3e5])       # (incl. a measure sitting far from the origin compared with its spread)
     m.center_mass = t
     ck(R.close(R.wmean(m.positions, m.weights), t, 1e-9, 1e-9), 'center_mass setter reaches the value', t=t, observed=R.wmean(m.positions, m.weights))
     ck(list(m.weights) == wts[k], 'center_mass setter leaves the weights alone')
